@@ -46,6 +46,8 @@ def plannable(prog):
 def plan_errkey(err):
     if "Invalid execution order in plan (expected" in err:
         return "plan-atom-count"
+    if "execution plan for version" in err and "permitted" in err:
+        return "plan-version"
     return ""
 
 
